@@ -15,6 +15,12 @@ Lemmas about the rule-hash pre-image (C07, C08, C10).
 namespace PlzVerif.RuleHash
 open PlzVerif.Frame
 
+theorem flatMap_congr_mem {α β : Type} {f g : α → List β} : ∀ (l : List α), (∀ x ∈ l, f x = g x) → l.flatMap f = l.flatMap g
+  | [], _ => rfl
+  | x :: r, h => by
+    simp only [List.flatMap_cons]
+    rw [h x (List.mem_cons_self ..), flatMap_congr_mem r (fun y hy => h y (List.mem_cons_of_mem _ hy))]
+
 /-! ### which attribute an item reads -/
 
 inductive AttrRef where
@@ -63,6 +69,25 @@ theorem serView_agree (F : Facts) (c : Ctx) {r : AttrRef} {v v' : View} (h : Agr
     have h2 := serView_agree F c h rest (fun k hk => hj k (List.mem_cons_of_mem _ hk))
     simp only [serView, List.flatMap_cons] at h2 ⊢
     rw [h1, h2]
+
+/-- Conversely for a list attribute: views that agree elsewhere and whose lists have the same concatenation
+    serialise alike, however often the attribute is written. -/
+theorem serView_congr_list (F : Facts) (c : Ctx) {v v' : View} (a : LAttr) (h : AgreeExcept (.l a) v v')
+    (hf : (v.list a).flatten = (v'.list a).flatten) :
+    ∀ (items : List (Guard × Item)), serView F c v items = serView F c v' items
+  | [] => rfl
+  | gi :: rest => by
+    have ih := serView_congr_list F c a h hf rest
+    simp only [serView, List.flatMap_cons] at ih ⊢
+    rw [ih]
+    congr 1
+    by_cases hr : gi.2.ref = .l a
+    · obtain ⟨g, i⟩ := gi
+      have hg : guardOn c v g = guardOn c v' g := by cases g <;> simp [guardOn, h.isTest]
+      cases i <;> simp only [Item.ref, AttrRef.l.injEq, reduceCtorEq] at hr
+      subst hr
+      simp only [serGuarded, hg, serItem, hf]
+    · exact serGuarded_agree F c h gi hr
 
 /-- Attribute `r` is written exactly once (by `gi`): equal pre-images force equal bytes for that write. -/
 theorem serView_single (F : Facts) (c : Ctx) {r : AttrRef} {v v' : View} (h : AgreeExcept r v v')
